@@ -92,7 +92,7 @@ def extrapolate_templates(sid_templates: Mapping[str, str], to_extrapolate: List
             debug(f"Extrapolating: {sid_type}")
 
             # getting ingredients from the sid_type and template
-            keytype = sid_type.split(sidtype_keytype_sep)[-1]
+            basetype = sid_type.split(sidtype_keytype_sep)[0]
             parts = template.split('/')[:-1]  # we remove the last element, that is already in the sid_type
 
             # walking up the parts
@@ -102,7 +102,7 @@ def extrapolate_templates(sid_templates: Mapping[str, str], to_extrapolate: List
                 key = part.split(':')[0].replace('{', '').replace('}', '')
 
                 # building the new type and template
-                new_type = sid_type.replace(keytype, key)
+                new_type = basetype + sidtype_keytype_sep + key
                 new_template = '/'.join(parts[:len(parts)-i])
 
                 # we skip if template is already defined by another type
